@@ -51,6 +51,7 @@ struct Plan {
     std::vector<InRep> inrep;
     std::vector<InjRep> injrep;
     bool soak = false;
+    std::vector<uint64_t> linkflap;  // times at which the Ethernet interface goes down and comes back: packet sockets bound to it report ENETDOWN once
     struct Restart { uint64_t t; bool listener; bool flip = false; };  // flip: the new talker runs with the other control format (-t added / removed)
     std::vector<Restart> restart;   // instants at which the (tunnel) talker or listener process is killed and started again
     std::string mode_str() const;  // e.g. "ntscf,raw,classic"
